@@ -55,14 +55,33 @@ Print Assumptions C20_ordered_locks_never_deadlock.
 
 (* the agent's activities, as read from the source (api/public/mod.rs make_broadcastable_changes,
    agent/util.rs process_multiple_changes / process_fully_buffered_changes / clear_buffered_meta_loop,
-   types/sync.rs generate_sync): locks 0 = write connection (queue, guard, pooled connection),
-   1 = write permit, 2 = the bookie, 10+a = the bookkeeping of actor a; rank = identity.
-   Every prefix of every activity is an ordered task, so no mix of them can deadlock. *)
-Definition act_local_write := [0; 1; 10].
-Definition act_remote_apply := [0; 1; 2; 10; 11; 12].
-Definition act_buffered_apply := [0; 1; 2; 11].
-Definition act_generate_sync := [2; 10; 11; 12].
-Definition act_clear_buffered := [0; 1].
+   types/sync.rs generate_sync), as sequences of acquire / release steps.  Locks: 0 = write
+   connection (queue, guard, pooled connection), 1 = write permit, 2 = the bookie (the map of
+   actors), 10+a = the bookkeeping of actor a.  The bookie lock is only ever held for the
+   lookup `bookie.write(..).ensure(actor)` / the clone of the map and released before the next
+   lock is requested, so it ranks ABOVE the per-actor locks: rank 0, 1, then 10+a by actor, then the
+   bookie.  Every point of every activity is an ordered task, so no mix of them can deadlock. *)
+Inductive lstep := Acq (l : Z) | Rel (l : Z).
+Definition act_local_write := [Acq 0; Acq 1; Acq 10; Rel 10; Rel 1; Rel 0].
+Definition per_actor (a : Z) := [Acq 2; Rel 2; Acq (10 + a); Rel (10 + a)].
+Definition act_remote_apply :=                      (* a batch with changes of actors 0, 1, 2: three passes over the actors *)
+  [Acq 0; Acq 1] ++ per_actor 0 ++ per_actor 1 ++ per_actor 2 ++ per_actor 0 ++ per_actor 1 ++ per_actor 2 ++
+  per_actor 0 ++ per_actor 1 ++ per_actor 2 ++ [Rel 1; Rel 0].
+(* (keeping the per-actor locks of earlier actors while going on would be ordered as well) *)
+Definition act_remote_apply_holding :=
+  [Acq 0; Acq 1; Acq 2; Rel 2; Acq 10; Acq 2; Rel 2; Acq 11; Acq 2; Rel 2; Acq 12; Rel 12; Rel 11; Rel 10; Rel 1; Rel 0].
+Definition act_buffered_apply := [Acq 0; Acq 1; Acq 2; Rel 2; Acq 11; Rel 11; Rel 1; Rel 0].
+Definition act_generate_sync := [Acq 2; Rel 2; Acq 10; Rel 10; Acq 11; Rel 11; Acq 12; Rel 12].
+Definition act_clear_buffered := [Acq 0; Acq 1; Rel 1; Rel 0].
+Definition agent_rank (l : Z) : Z := if l =? 2 then 1000 else l.
+
+(* the task a thread is at every acquire of its activity: what it holds, what it wants *)
+Fixpoint points (a : list lstep) (held : list Z) : list task :=
+  match a with
+  | [] => [mkTask held None]
+  | Acq x :: t => mkTask held (Some x) :: points t (held ++ [x])
+  | Rel x :: t => points t (filter (fun h => negb (h =? x)) held)
+  end.
 
 Fixpoint prefixes (l : list Z) (held : list Z) : list task :=
   match l with
@@ -71,9 +90,16 @@ Fixpoint prefixes (l : list Z) (held : list Z) : list task :=
   end.
 
 Example C20_agent_activities_are_ordered :
-  forallb (ordered (fun x => x))
-    (flat_map (fun a => prefixes a []) [act_local_write; act_remote_apply; act_buffered_apply; act_generate_sync; act_clear_buffered]) = true.
+  forallb (ordered agent_rank)
+    (flat_map (fun a => points a []) [act_local_write; act_remote_apply; act_remote_apply_holding; act_buffered_apply; act_generate_sync; act_clear_buffered]) = true.
 Proof. vm_compute. reflexivity. Qed.
+
+(* holding the bookie while asking for a per-actor lock, or asking for the connection while
+   holding bookkeeping, is rejected by the same test *)
+Example C20_bookie_held_across_is_not_ordered :
+  forallb (ordered agent_rank) (points [Acq 0; Acq 1; Acq 2; Acq 10] []) = false /\
+  forallb (ordered agent_rank) (points [Acq 10; Acq 0] []) = false.
+Proof. vm_compute. split; reflexivity. Qed.
 
 (* a swapped order is rejected by the same test *)
 Example C20_swapped_order_is_not_ordered :
